@@ -48,7 +48,7 @@ func getBackend() (*backendEnv, error) {
 			return mem.NewSession(), nil, nil
 		},
 		InsecureAuth: true,
-		Caps:         imap.CapSet{imap.CapIMAP4rev1: {}},
+		Caps:         imap.CapSet{imap.CapIMAP4rev1: {}, imap.CapLiteralPlus: {}},
 	})
 	raw := env.Dial()
 	if _, err := raw.Greeting(); err != nil {
@@ -70,6 +70,11 @@ func getBackend() (*backendEnv, error) {
 		fmt.Fprintf(&sb, "Date: %s\r\n", d.Format("Mon, 02 Jan 2006")+" 12:00:00 +0000")
 		sb.WriteString("\r\n")
 		body := m.Body + strings.Repeat(".", int(m.Size)*7)
+		if i%4 == 1 {
+			// some messages are larger than any I/O buffer, with the searched
+			// words at the very beginning of the body
+			body += "\r\n" + strings.Repeat("padding line of a large message\r\n", 200+i)
+		}
 		sb.WriteString(body)
 		text := sb.String()
 		var flags []string
